@@ -51,7 +51,9 @@ func Index(t *Thread, coll Value, k Value) (Value, error) {
 			}
 			return NilValue, indexError(coll)
 		}
-		if _, ok := metaIdx.TryTable(); ok {
+		if metaIdx.Type() != FunctionType {
+			// Anything that is not a function is indexed in turn (it may have
+			// an __index metamethod itself, e.g. a string).
 			coll = metaIdx
 		} else {
 			res := NewTerminationWith(t.CurrentCont(), 1, false)
@@ -94,7 +96,7 @@ func SetIndex(t *Thread, coll Value, idx Value, val Value) error {
 			return fmt.Errorf(
 				"attempt to index %s value without __newindex", coll.TypeName())
 		}
-		if _, ok := metaNewIndex.TryTable(); ok {
+		if metaNewIndex.Type() != FunctionType {
 			coll = metaNewIndex
 		} else {
 			return Call(t, metaNewIndex, []Value{coll, idx, val}, NewTermination(t.CurrentCont(), nil, nil))
